@@ -33,6 +33,14 @@ CHECKS = {
    text="Each backend-neutral (spec, table) is built for pandas and for polars and validated lazily by both real backends: verdicts, frame-level errors, dtype/coercion error columns, failing cells (column, row position) and the parsed output (columns, order, logical dtype, values up to the null representation) must agree; without parsing options the verdict is also compared with the reference model so that a bug shared by both backends is seen.",
    note="Excluded as engine-representation artefacts (generated, counted, not judged): nulls in numpy int/bool columns, casts from text to datetime/bool, empty/all-null columns of a foreign physical type, >=2 nulls under unique, joint uniqueness over nulls; features the polars docs declare unsupported.",
    ref="4/C08"),
+ "C18": dict(cat="exploration", tech="stack-model monitor of config_context programs, fresh-interpreter env-var matrix, metamorphic depth relations on real validate",
+   text="Every config_context nesting of depth <= 2 over all option settings x exception shapes (exhaustive), plus sampled depth 3-4 programs with real validate calls, is compared step by step with a pure-Python save-stack model; the PANDERA_* environment matrix (108 settings; quick 16) is observed in fresh interpreters; for generated null-free (schema, data) the verdicts under SCHEMA_ONLY / DATA_ONLY / full are compared with the documentation-restricted schema at full depth on pandas, polars DataFrame and LazyFrame, including the polars defaults and 'disabled returns the argument'.",
+   note="Schema-level vs data-level taken from docs/source/configuration.md, error_report.md, polars.md; nullability, coercion and defaults under depth not judged; documented env spellings only; single-threaded (C07 covers threads).",
+   ref="4/C18"),
+ "C19": dict(cat="exploration", tech="metamorphic option variants of one generated predicate with instrumented check functions on the real Check/validate",
+   text="One generated predicate (comparison, modular, string, raising-on-null) is run through the real schema.validate as each option variant (element_wise vs vectorised map, ignore_na True/False, n_failure_cases, raise_warning, groupby/groups, aliases) at Column, Series, DataFrame level and on polars; verdicts, failure cases, SchemaWarnings and the arguments actually shown to the function are compared with each other and with a scalar reading of the predicate.",
+   note="The scalar reading in pvm/c19_gen.py is the meaning of the function; null handling as documented in docs/source/checks.md; three polars items (groupby, ignore_na=False visibility, truncation) not judged; frames <= 8 rows.",
+   ref="4/C19"),
 }
 NOT_YET = {}
 
